@@ -7,7 +7,7 @@
    from the current source (gen/GenC20.v, checked by C20_source_cfg).  Coefficient (a1, c1) has index a1*c + c1.
    pass2_ok n A rhs k := the (lhs, rhs) handed to spsolve equal A (all n x n entries) and rhs. *)
 From Coq Require Import ZArith List Bool Ring.
-From PB Require Import C11.DtD C20.Model C20.Proofs gen.GenC20 C20.GenOk C07.Model2D C07.Proofs2D.
+From PB Require Import C11.DtD C20.Model C20.Proofs gen.GenC20 C07.Model2D C07.Proofs2D C07.Cfg2D.
 Import ListNotations.
 Open Scope Z_scope.
 
@@ -71,7 +71,7 @@ Print Assumptions C07_2d_Bc.
 
 (* the configuration translated from the current source is one these theorems apply to *)
 Theorem C07_2d_source_cfg : cfg_ok gen_cfg_spline = true.
-Proof. exact (proj2 gen_cfgs_ok). Qed.
+Proof. exact spline_cfg_ok. Qed.
 Print Assumptions C07_2d_source_cfg.
 
 (* non-vacuity: integers, a 3 x 2 coefficient grid with different orders per axis; the model's lhs is the
